@@ -13,7 +13,7 @@ ASSUMPTIONS = ["|lower|/side <= 1e6 keeps rounding of the affine map below 1e-9 
 
 def cases(tier, seed):
     out = []
-    reps = 2 if tier == "quick" else 12
+    reps = 4 if tier == "quick" else 40
     idx = 0
     for N in (2, 3, 4, 5):
         for m in range(2, 13):
